@@ -64,8 +64,18 @@ def register_echo(conn, model):
 
 
 # --------------------------------------------------------------- arguments
-def resolve(spec, results, host=None):
-    """op-arg spec -> python / pywbem object."""
+def resolve(spec, results, host=None, cache=None):
+    """op-arg spec -> python / pywbem object.  cache (a dict, per
+    connection): argument objects are re-used for equal specs, i.e. the
+    caller passes the same Python object to several operations."""
+    if cache is not None and isinstance(spec, dict) and \
+            ('$inst' in spec or '$path' in spec or '$cname' in spec or
+             '$class' in spec):
+        import json as _json
+        key = _json.dumps(spec, sort_keys=True)
+        if key not in cache:
+            cache[key] = resolve(spec, results, host)
+        return cache[key]
     if isinstance(spec, dict):
         if '$path' in spec:
             p = mg.path_to_cim(spec['$path'])
@@ -106,7 +116,7 @@ def resolve(spec, results, host=None):
     return spec
 
 
-def call(conn, op, results):
+def call(conn, op, results, cache=None):
     """Execute one op spec on conn.  Returns ('ok', value) | ('exc', e)."""
     name = op['op']
     if name == '$set_default_namespace':
@@ -115,8 +125,9 @@ def call(conn, op, results):
             return ('ok', None)
         except Exception as e:  # pylint: disable=broad-except
             return ('exc', e)
-    kw = {k: resolve(v, results) for k, v in op.get('a', {}).items()}
-    pos = [resolve(v, results) for v in op.get('p', [])]
+    kw = {k: resolve(v, results, cache=cache)
+          for k, v in op.get('a', {}).items()}
+    pos = [resolve(v, results, cache=cache) for v in op.get('p', [])]
     try:
         fn = getattr(conn, name)
         rv = fn(*pos, **kw)
@@ -592,11 +603,19 @@ class OpGen:
 
 
 def gen_program(r, model, default_ns, n, valid_only=False,
-                switch_default_ns=False):
+                switch_default_ns=False, with_export=False):
+    """with_export: the program may contain ExportIndication (the peer then
+    also plays the role of a listener); only for worlds without a direct
+    replica, because FakedWBEMConnection has no export path."""
     g = OpGen(r, model, default_ns, valid_only)
     ops = []
     for i in range(n):
-        if switch_default_ns and r.random() < 0.08:
+        if with_export and r.random() < 0.06:
+            ispec, c = g.new_inst(None)
+            ops.append({'op': 'ExportIndication',
+                        'a': {'NewIndication': {'$inst': ispec,
+                                                'cdesc': c}}})
+        elif switch_default_ns and r.random() < 0.08:
             ns = r.choice(model['namespaces'] + ['root/cimv2', None])
             ops.append({'op': '$set_default_namespace', 'ns': ns})
             g.default_ns = ns or 'root/cimv2'
